@@ -140,7 +140,7 @@ class TypeDef:
                 s = "const %s: %s" % (p["name"], p.get("cty", "usize"))
                 if p.get("default"):
                     s += " = " + p["default"]
-            parts.append(s)
+            parts.append((p["attr"] + " " if p.get("attr") else "") + s)
         return "<" + ", ".join(parts) + ">"
 
     def inst_args(self):
